@@ -28,6 +28,15 @@ def generate(rng, idx, tier, variant):
     spec['_allow_huge'] = np_err != 'raise'
     n, lags, leads = spec['span']['n'], spec['lags'], spec['leads']
     spec['trace_variables'] = None if rng.random() < 0.6 else rng.sample(names, rng.randint(1, len(names)))
+    handles = list(names)
+    if rng.random() < 0.25:
+        # the tracer combined with the alias mixin (either order in the MRO); traced names may then be aliases
+        spec['aliases'] = [[f'AL{i}', nm] for i, nm in enumerate(rng.sample(names, min(len(names), 2)))]
+        spec['alias_first'] = rng.random() < 0.5
+        handles = names + [a for a, _ in spec['aliases']]
+    dup_labels = (not parser) and rng.random() < 0.06
+    if dup_labels:
+        spec['span']['type'] = 'list_dup'  # labels repeat (quarters over several years): periods are addressed by position
     ops = list(pokes)
     solved_specs = {}
     for _ in range(rng.choice([1, 2, 2, 3, 4])):
@@ -40,15 +49,15 @@ def generate(rng, idx, tier, variant):
         if r < 0.4:
             tr = True
         elif r < 0.75:
-            tr = rng.sample(names, rng.randint(1, len(names)))
+            tr = rng.sample(handles, rng.randint(1, len(names)))
         else:
-            tr = rng.choice(names)
+            tr = rng.choice(handles)
         reset = rng.random() < 0.15
         off_call = rng.random() < 0.2  # this call is made with tracing off on the traced party too
         if off_call:
             tr = rng.choice([None, False])
             reset = False
-        entry = rng.choice(['solve_t', 'solve_t', 'solve_period', 'solve'])
+        entry = rng.choice(['solve_t', 'solve_t', 'solve_period', 'solve']) if not dup_labels else 'solve_t'
         tn = rng.randint(lags, n - 1 - leads)
         # repeated solve of a period with another trace specification: generated rarely and marked (known finding F9)
         key = canon(tr)
@@ -113,7 +122,13 @@ def build_triplet(fsic, spec):
         raw = fsic.build_model(fsic.parse_model(spec['script']))
         base = probes.make_probed(fsic, raw)
         endo, check = list(raw.ENDOGENOUS), list(raw.CHECK)
-    traced = type('Traced', (TracerMixin, base), {'TRACE_VARIABLES': spec.get('trace_variables')})
+    if spec.get('aliases'):
+        from fsic.extensions import AliasMixin
+
+        order = (AliasMixin, TracerMixin) if spec.get('alias_first') else (TracerMixin, AliasMixin)
+        traced = type('Traced', order + (base,), {'TRACE_VARIABLES': spec.get('trace_variables'), 'ALIASES': dict(map(tuple, spec['aliases']))})
+    else:
+        traced = type('Traced', (TracerMixin, base), {'TRACE_VARIABLES': spec.get('trace_variables')})
     out = []
     for cls in (traced, traced, base):
         m = probes.new_scripted_instance(cls, spans.make_span(spec['span']), spec['init'])
@@ -163,6 +178,11 @@ def execute(schedule, ctx):
     n = len(span)
     lags, leads = spec['lags'], spec['leads']
     chk = lambda sig, ok, detail=None: ctx.check('C17', sig, ok, detail)  # noqa: E731
+    alias_of = dict(map(tuple, spec.get('aliases', [])))
+    if alias_of:
+        ctx.probe('tracer-combined-with-alias-mixin')
+    if spec['span']['type'] == 'list_dup':
+        ctx.probe('repeated-labels-positional-solve')
     # what each period's trace is expected to hold so far: (names, labels, columns)
     expected = {p: {'names': None, 'labels': [], 'cols': []} for p in range(n)}  # names None <=> trace still empty
 
@@ -306,12 +326,12 @@ def execute(schedule, ctx):
                 if e['labels'] is None:
                     continue
                 e['labels'] = e['labels'] + labels
-                e['cols'] = e['cols'] + [[c.get(nm) for nm in e['names']] for c in cols]
+                e['cols'] = e['cols'] + [[c.get(alias_of.get(nm, nm)) for nm in e['names']] for c in cols]
                 if labels[-1] == 'end':
                     ctx.probe('trace-of-solved-period')
                     tr_obj = A.__dict__['_trace'][p]
                     if not tr_obj.is_empty() and len(tr_obj.index) == len(e['labels']) and tr_obj.values.shape[0] == len(e['names']):
-                        ok = all(_val_eq(tr_obj.values[i, -1], pA[nm][p]) for i, nm in enumerate(e['names']) if nm in pA)
+                        ok = all(_val_eq(tr_obj.values[i, -1], pA[alias_of.get(nm, nm)][p]) for i, nm in enumerate(e['names']) if alias_of.get(nm, nm) in pA)
                         chk('fidelity/final-snapshot-is-stored-solution', ok, {'period': p})
                 else:
                     ctx.probe('trace-of-unsolved-period:' + str(labels[-1] if isinstance(labels[-1], str) else 'pass'))
